@@ -20,7 +20,9 @@ CLAIMS["C20"] = {
     "level": "Decides for every fit site and both failure kinds the code-shape conditions the property needs: first fit in a "
              "try catching UserWarning and SolverError, handler re-fits without raising, retry call binds to "
              "QuantileRegressionSolver.fit and agrees with the first call on x, y, taus, weights, lambda_, fit_intercept "
-             "while passing normalize_weights=False, cvxpy warnings are errors, no conformal-family fit bypasses fit_model. "
+             "while passing normalize_weights=False, cvxpy warnings are errors, no conformal-family fit bypasses fit_model, and - because the solver's fit() appends one coefficient vector per quantile (read "
+             "from its installed source) - every fit_model call gets a fresh solver and a single scalar quantile, so a failed attempt "
+             "leaves nothing behind for the retry to pile onto. "
              "Static because the except branch is never executed by tests and the faults are not reproducible offline.",
     "note": "Trusted: elexsolver/cvxpy semantics (a retry with normalize_weights=False succeeds), cvxpy emits UserWarning from "
             "a module named cvxpy*. Not decided: that the tables are numerically the same after a retry.",
@@ -31,7 +33,8 @@ CLAIMS["C18"] = {
     "level": "Decides, for every combination of save_output flags / environment / estimator / gate outcome, which persistent "
              "writes can happen: each sink reachable from get_estimates, get_national_summary_votes_estimates and "
              "get_historical_evaluation is guarded on every path by the flag (and APP_ENV != local) the property names; the "
-             "live-results write dominates the not-enough-subunits raise; every remote key is rooted at "
+             "live-results write dominates the not-enough-subunits raise and the writer itself puts on every path to a normal return "
+             "(must-pass-through); every remote key is rooted at "
              "S3_FILE_PATH/election_id with whitespace-free constant parts; one put per returned table.",
     "note": "Trusted: writes reach storage only through elexmodel.handlers.s3 / the listed local sink idioms; "
             "caller-supplied model_parameters do not override save_conformalization. Not decided: behaviour of boto3.",
@@ -56,10 +59,12 @@ CLAIMS["C14"] = {
     "level": "Decides the gate clauses for every (alpha list, unit count, estimator): the dedicated error is raised exactly under "
              "rows(reporting frame) < max over requested levels of model.get_minimum_reporting_units, strictly, on every run, "
              "before any model computation; duplicate ids raise ModelClientException; the three estimators' minimum and "
-             "training-fraction formulas equal the documented ones. The arithmetic clause (split valid for all (alpha, n)) is "
-             "NOT decided here: it needs reasoning over unbounded integers/reals (and is false at n = minimum, DESIGN.md O1).",
-    "note": "Only the gate, ordering and formula clauses are claimed; numeric validity of the split for all (alpha, n) is out of "
-            "reach of this family and disclosed as observation O1.",
+             "training-fraction formulas equal the documented ones; the split keeps max(floor(n_train * fraction), 1) training rows "
+             "(never an empty training set - the defect F12, repaired). The arithmetic clause (calibration size and quantile level "
+             "valid for all (alpha, n >= minimum)) is NOT decided by analysis: it needs reasoning over unbounded integers/reals; "
+             "DESIGN.md appendix B gives a hand proof and rule R6 checks that the code still is the formula that proof is about.",
+    "note": "Gate, ordering, formula and never-empty-training-set clauses are decided; numeric validity of the split for all "
+            "(alpha, n) rests on the hand proof of appendix B.",
 }
 
 CLAIMS["C19"] = {
@@ -152,7 +157,8 @@ CLAIMS["C03"] = {
     "level": "Decides for all inputs (incl. partial counts above the modelled value, negative corrections, gaussian bounds below "
              "the partial counts): unit prediction and both unit bounds of both conformal estimators are floored at the unit's "
              "counted votes and rounded; gaussian aggregate bounds are max(modelled bound, S_N(results)) + S_R + S_U(results), "
-             "filled before adding, rounded, and equal the counted votes when nothing is outstanding; reporting and unexpected "
+             "filled before adding, rounded, and equal the counted votes when nothing is outstanding, and the floor column read by position from a second table belongs "
+             "to the same group (equal row signatures: sorted by the keys, fresh range index); reporting and unexpected "
              "units copy results into prediction and every level's bounds (and results_weights into pred_turnout). Each of the "
              "five sites can be broken without changing a pinned test number.",
     "note": "Not decided: finiteness of modelled values (NaN from degenerate calibration sets) - numeric. Aggregate floor for the "
@@ -181,7 +187,8 @@ CLAIMS["C13"] = {
     "level": "Decides for every subset and order of levels, aggregates and estimands the ways requests can interfere through state "
              "shared across the loops: cross-estimand joins are keyed on every shared column; every attribute carried from the "
              "per-level unit step to the per-level aggregate step is keyed by the level, stored as a copy and read with the same key, "
-             "and the client pairs levels correctly; nothing inside the loops advances a persistent generator except behind the "
+             "and the client pairs levels correctly and consumes that state (which is never keyed by the estimand) inside the same "
+             "iteration of the estimand loop that produced it; nothing inside the loops advances a persistent generator except behind the "
              "run-once guard, and in-loop resampling builds its generator from the seed each time; each in-place column write on a "
              "shared frame names every request parameter its value depends on. A relation between runs with different request "
              "sets cannot be sampled by the suite's single fixed request.",
@@ -200,7 +207,7 @@ CLAIMS["C04"] = {
              "un-normalised, floored, rounded; seeded shuffle, floor(n*frac) training rows, the rest calibration, matrix slices "
              "agreeing with frame slices. The coverage clause follows by the split-conformal theorem (cited, not machine-checked).",
     "note": "Not decided: the probabilistic clause itself (a statement about a distribution of elections) and validity of the level "
-            "<= 1 for all (alpha, n) (arithmetic; C14 / O1). Solver semantics trusted.",
+            "<= 1 for all (alpha, n) (arithmetic; C14 / appendix B). Solver semantics trusted.",
 }
 
 CLAIMS["C05"] = {
@@ -225,7 +232,9 @@ CLAIMS["C06"] = {
              "aggregate bounds capped strictly below / above the same prediction; every margin / turnout factor stored in the draw "
              "matrices and point predictions is clipped with the bounds of the matching quantity after its last update and only "
              "then weighted; the draws are produced once (single writer behind the run-once guard, per-level functions draw "
-             "nothing), so all levels are quantiles of the same draws; the ranks are the statement's own formulas.",
+             "nothing), so all levels are quantiles of the same draws; the value the aggregate interval is built around is the "
+             "reported prediction (stored vector at the top level, the same R | N | U quotient below it); the ranks are the "
+             "statement's own formulas.",
     "note": "Not decided: 0 <= low rank <= high rank <= 1 and monotonicity in alpha for all (alpha, B >= 2) (integer/real arithmetic; "
             "hand proof in DESIGN.md appendix A, not machine-checked) and the numeric range of margins given data (feasible-range "
             "bounds are data dependent). Called / stop-listed contests are C07's domain.",
@@ -239,10 +248,11 @@ CLAIMS["C17"] = {
              "percentages): both irregularity tests return 101 rows of missing estimates with their own error type before any "
              "estimate is computed; est(p) = (m_i v_i + b_i (p - v_i)) / p with i the last observation <= p (searchsorted right - 1, "
              "clipped), b_i the forward batch margin, and the before-first-observation substitution (v = 0, m = b = first margin); "
-             "correction = final margin - est on percents 0..int(max); the percent axis is the re-scaled turnout; the extrapolation "
+             "correction = final margin - est on percents 0..int(max); the percent axis is the re-scaled turnout, computed in a floating-point buffer whatever the dtype of the counts; the value at "
+             "0 percent is the following batch's margin; the extrapolation "
              "averages only non-null corrections near an observation. Convexity follows from v_i <= p (choice of i).",
-    "note": "Not decided: numeric range for given data, and the value at p = 0 (observation O2: it is 0, not the first observed "
-            "margin). numpy.searchsorted / divide semantics trusted.",
+    "note": "Not decided: numeric range for given data. The value at p = 0 (F14) and the floating-point buffer of the re-scaled "
+            "percent axis (F13) are decided by their own rules. numpy.searchsorted / divide semantics trusted.",
 }
 
 CLAIMS["C16"] = {
@@ -283,7 +293,8 @@ CLAIMS["C10"] = {
              "fit, a random draw, a reduction along the row axis, a matrix product or a grouping key in the unit-level code of the "
              "three estimators (frozen, reasoned exceptions only); fit targets / weights come from the reporting frame; the featurizer "
              "reads no results-derived column; historical results are zeroed for every requested estimand exactly on the "
-             "nonreporting side of the unit split; non-modelled and unexpected units are in neither model frame (truth table).",
+             "nonreporting side of the unit split; non-modelled and unexpected units are in neither model frame (truth table); at group level the "
+             "counted-votes floor read by position from a second table is that of the same group (row signatures).",
     "note": "Group sums of the aggregate functions are the property's own exception and are outside the scope. Not followed: aliasing "
             "through object attributes (versioned history). Observation O4 (results_turnout visible in historical runs when turnout is "
             "not an estimand) does not reach any estimate and is not counted.",
